@@ -1,12 +1,739 @@
 package main
 
+// Counterexample replay: a solver model (or a boundary / random input) is turned into an in-package Go test
+// injected with `go test -overlay`; the real function is called on the inputs (in the model's alias
+// pattern), the outputs are read back, and the contract's requires / ensures clauses are evaluated on the
+// concrete (inputs, outputs) with the same specification evaluator that produced the obligations.
+
+import (
+	"bytes"
+	"context"
+	"encoding/json"
+	"fmt"
+	"go/types"
+	"math/big"
+	"math/rand"
+	"os"
+	"os/exec"
+	"path/filepath"
+	"sort"
+	"strings"
+	"time"
+
+	"golang.org/x/tools/go/ssa"
+)
+
 type replayResult struct {
 	Confirmed bool        `json:"confirmed"`
+	Source    string      `json:"input_source,omitempty"` // solver-model | boundary-search | random-search
 	Inputs    interface{} `json:"inputs,omitempty"`
 	Outputs   interface{} `json:"outputs,omitempty"`
 	Violated  []string    `json:"violated,omitempty"`
 	Test      string      `json:"go_test,omitempty"`
 	Log       string      `json:"log,omitempty"`
+	Tried     int         `json:"inputs_tried,omitempty"`
 }
 
-func replayModel(repo string, o *Obligation, dir, id string) *replayResult { return nil }
+// ReplayCtx is attached to every obligation of a function run.
+type ReplayCtx struct {
+	V     *Verifier
+	Pkg   *ssa.Package
+	Fn    *ssa.Function
+	C     *Contract
+	Part  partition
+	Tags  string
+	Repo  string
+}
+
+// concrete value trees mirror the Value shapes: *big.Int | bool | []interface{}
+type cval interface{}
+
+func supportedReplayType(v *Verifier, t types.Type) bool {
+	switch u := t.Underlying().(type) {
+	case *types.Basic:
+		_, ok := intKind(t)
+		return ok || isBool(t)
+	case *types.Array:
+		return u.Len() <= 1024 && supportedReplayType(v, u.Elem())
+	case *types.Struct:
+		for i := 0; i < u.NumFields(); i++ {
+			if !supportedReplayType(v, u.Field(i).Type()) {
+				return false
+			}
+		}
+		return true
+	}
+	return false
+}
+
+// buildInput: concrete value of type t from a naming function (same naming scheme as symValue).
+func buildInput(t types.Type, prefix string, get func(name string, ii intInfo, isBool bool) cval) cval {
+	switch u := t.Underlying().(type) {
+	case *types.Basic:
+		if isBool(t) {
+			return get(prefix, intInfo{}, true)
+		}
+		ii, _ := intKind(t)
+		return get(prefix, ii, false)
+	case *types.Array:
+		out := make([]interface{}, u.Len())
+		for i := range out {
+			out[i] = buildInput(u.Elem(), fmt.Sprintf("%s_%d", prefix, i), get)
+		}
+		return out
+	case *types.Struct:
+		out := make([]interface{}, u.NumFields())
+		for i := range out {
+			out[i] = buildInput(u.Field(i).Type(), prefix+"."+u.Field(i).Name(), get)
+		}
+		return out
+	}
+	return nil
+}
+
+func goLiteral(t types.Type, v cval, qual types.Qualifier) string {
+	switch u := t.Underlying().(type) {
+	case *types.Basic:
+		if b, ok := v.(bool); ok {
+			return fmt.Sprint(b)
+		}
+		return v.(*big.Int).String()
+	case *types.Array:
+		var parts []string
+		for _, e := range v.([]interface{}) {
+			parts = append(parts, goLiteral(u.Elem(), e, qual))
+		}
+		return types.TypeString(t, qual) + "{" + strings.Join(parts, ", ") + "}"
+	case *types.Struct:
+		var parts []string
+		for i, e := range v.([]interface{}) {
+			parts = append(parts, u.Field(i).Name()+": "+goLiteral(u.Field(i).Type(), e, qual))
+		}
+		return types.TypeString(t, qual) + "{" + strings.Join(parts, ", ") + "}"
+	}
+	return "nil"
+}
+
+// toValue converts a concrete tree to a symbolic-executor Value made of constants.
+func (v *Verifier) toValue(t types.Type, c cval) Value {
+	switch u := t.Underlying().(type) {
+	case *types.Basic:
+		if b, ok := c.(bool); ok {
+			return v.F.Bool(b)
+		}
+		return v.F.Int(c.(*big.Int))
+	case *types.Array:
+		es := make([]Value, u.Len())
+		for i, e := range c.([]interface{}) {
+			es[i] = v.toValue(u.Elem(), e)
+		}
+		return &AggV{es}
+	case *types.Struct:
+		es := make([]Value, u.NumFields())
+		for i, e := range c.([]interface{}) {
+			es[i] = v.toValue(u.Field(i).Type(), e)
+		}
+		return &AggV{es}
+	}
+	return nil
+}
+
+// decodeJSON converts json (with UseNumber) into a concrete tree of type t.
+func decodeJSON(t types.Type, j interface{}) (cval, bool) {
+	switch u := t.Underlying().(type) {
+	case *types.Basic:
+		if isBool(t) {
+			b, ok := j.(bool)
+			return b, ok
+		}
+		n, ok := j.(json.Number)
+		if !ok {
+			return nil, false
+		}
+		k, ok := new(big.Int).SetString(n.String(), 10)
+		return k, ok
+	case *types.Array:
+		l, ok := j.([]interface{})
+		if !ok || int64(len(l)) != u.Len() {
+			// byte arrays are encoded by encoding/json as base64 strings: avoided by printing via []int
+			return nil, false
+		}
+		out := make([]interface{}, len(l))
+		for i, e := range l {
+			c, ok := decodeJSON(u.Elem(), e)
+			if !ok {
+				return nil, false
+			}
+			out[i] = c
+		}
+		return out, true
+	case *types.Struct:
+		l, ok := j.([]interface{})
+		if !ok || len(l) != u.NumFields() {
+			return nil, false
+		}
+		out := make([]interface{}, len(l))
+		for i, e := range l {
+			c, ok := decodeJSON(u.Field(i).Type(), e)
+			if !ok {
+				return nil, false
+			}
+			out[i] = c
+		}
+		return out, true
+	}
+	return nil, false
+}
+
+// printer expression producing a JSON-encodable []interface{} tree for expression e of type t
+func dumpExpr(t types.Type, e string) string {
+	switch u := t.Underlying().(type) {
+	case *types.Basic:
+		if isBool(t) {
+			return e
+		}
+		if ii, _ := intKind(t); ii.signed {
+			return "int64(" + e + ")"
+		}
+		return "uint64(" + e + ")"
+	case *types.Array:
+		return fmt.Sprintf("func() []interface{} { a := %s; r := make([]interface{}, len(a)); for i := range a { r[i] = %s }; return r }()", e, dumpExpr(u.Elem(), "a[i]"))
+	case *types.Struct:
+		var parts []string
+		for i := 0; i < u.NumFields(); i++ {
+			parts = append(parts, dumpExpr(u.Field(i).Type(), "s."+u.Field(i).Name()))
+		}
+		return fmt.Sprintf("func() []interface{} { s := %s; return []interface{}{%s} }()", e, strings.Join(parts, ", "))
+	}
+	return "nil"
+}
+
+type replayPlan struct {
+	ctx      *ReplayCtx
+	objTypes []types.Type // per alias class (pointer params)
+	objOf    map[int]int  // param index -> object index
+	objNames []string
+}
+
+func newReplayPlan(ctx *ReplayCtx) *replayPlan {
+	fn := ctx.Fn
+	v := ctx.V
+	rp := &replayPlan{ctx: ctx, objOf: map[int]int{}}
+	repObj := map[int]int{}
+	for i, p := range fn.Params {
+		if pt, ok := p.Type().Underlying().(*types.Pointer); ok {
+			if !supportedReplayType(v, pt.Elem()) {
+				return nil
+			}
+			rep, ok := ctx.Part.class[i]
+			if !ok {
+				rep = i
+			}
+			oi, seen := repObj[rep]
+			if !seen {
+				oi = len(rp.objTypes)
+				repObj[rep] = oi
+				rp.objTypes = append(rp.objTypes, pt.Elem())
+				rp.objNames = append(rp.objNames, fn.Params[rep].Name())
+			}
+			rp.objOf[i] = oi
+		} else if !supportedReplayType(v, p.Type()) {
+			return nil
+		}
+	}
+	rs := fn.Signature.Results()
+	for i := 0; i < rs.Len(); i++ {
+		t := rs.At(i).Type()
+		if _, isPtr := t.Underlying().(*types.Pointer); isPtr {
+			continue
+		}
+		if types.Identical(t, types.Universe.Lookup("error").Type()) {
+			continue
+		}
+		if !supportedReplayType(v, t) {
+			return nil
+		}
+	}
+	return rp
+}
+
+type concreteInput struct {
+	objs    []cval          // per object
+	scalars map[int]cval    // param index -> value (non-pointer params)
+}
+
+func (rp *replayPlan) inputFrom(get func(name string, ii intInfo, isBool bool) cval) *concreteInput {
+	fn := rp.ctx.Fn
+	in := &concreteInput{scalars: map[int]cval{}}
+	for oi, t := range rp.objTypes {
+		in.objs = append(in.objs, buildInput(t, rp.objNames[oi], get))
+	}
+	for i, p := range fn.Params {
+		if _, ok := rp.objOf[i]; ok {
+			continue
+		}
+		in.scalars[i] = buildInput(p.Type(), p.Name(), get)
+	}
+	return in
+}
+
+func (rp *replayPlan) testSource(inputs []*concreteInput) string {
+	fn := rp.ctx.Fn
+	pkg := rp.ctx.Pkg.Pkg
+	qual := func(p *types.Package) string {
+		if p == pkg {
+			return ""
+		}
+		return p.Name()
+	}
+	var b strings.Builder
+	fmt.Fprintf(&b, "package %s\n\nimport (\n\t\"encoding/json\"\n\t\"fmt\"\n\t\"testing\"\n)\n\n", pkg.Name())
+	fmt.Fprintf(&b, "func TestGcvReplay(t *testing.T) {\n")
+	for k, in := range inputs {
+		fmt.Fprintf(&b, "\tfunc() {\n")
+		fmt.Fprintf(&b, "\t\tdefer func() { if r := recover(); r != nil { fmt.Printf(\"GCVOUT %d PANIC %%v\\n\", r) } }()\n", k)
+		for oi, t := range rp.objTypes {
+			fmt.Fprintf(&b, "\t\to%d := %s\n", oi, goLiteral(t, in.objs[oi], qual))
+		}
+		var args []string
+		recv := ""
+		for i, p := range fn.Params {
+			var e string
+			if oi, ok := rp.objOf[i]; ok {
+				e = fmt.Sprintf("&o%d", oi)
+			} else {
+				e = goLiteral(p.Type(), in.scalars[i], qual)
+				if _, isB := p.Type().Underlying().(*types.Basic); isB {
+					e = types.TypeString(p.Type(), qual) + "(" + e + ")"
+				}
+			}
+			if i == 0 && fn.Signature.Recv() != nil {
+				recv = e
+				continue
+			}
+			args = append(args, e)
+		}
+		call := fn.Name() + "(" + strings.Join(args, ", ") + ")"
+		if recv != "" {
+			call = "(" + recv + ")." + call
+		}
+		rs := fn.Signature.Results()
+		var rnames, dumps []string
+		for i := 0; i < rs.Len(); i++ {
+			rn := fmt.Sprintf("r%d", i)
+			rnames = append(rnames, rn)
+			t := rs.At(i).Type()
+			switch {
+			case types.Identical(t, types.Universe.Lookup("error").Type()):
+				dumps = append(dumps, rn+" != nil")
+			default:
+				if _, isPtr := t.Underlying().(*types.Pointer); isPtr {
+					// which object does it point to?
+					var alts []string
+					for oi := range rp.objTypes {
+						if types.Identical(types.NewPointer(rp.objTypes[oi]), t) {
+							alts = append(alts, fmt.Sprintf("if %s == &o%d { return %d }", rn, oi, oi))
+						}
+					}
+					dumps = append(dumps, "func() int { "+strings.Join(alts, "; ")+"; return -1 }()")
+				} else {
+					dumps = append(dumps, dumpExpr(t, rn))
+				}
+			}
+		}
+		if len(rnames) > 0 {
+			fmt.Fprintf(&b, "\t\t%s := %s\n", strings.Join(rnames, ", "), call)
+		} else {
+			fmt.Fprintf(&b, "\t\t%s\n", call)
+		}
+		var odumps []string
+		for oi, t := range rp.objTypes {
+			odumps = append(odumps, dumpExpr(t, fmt.Sprintf("o%d", oi)))
+		}
+		fmt.Fprintf(&b, "\t\tout, _ := json.Marshal(map[string]interface{}{\"objs\": []interface{}{%s}, \"results\": []interface{}{%s}})\n", strings.Join(odumps, ", "), strings.Join(dumps, ", "))
+		fmt.Fprintf(&b, "\t\tfmt.Printf(\"GCVOUT %d %%s\\n\", out)\n", k)
+		fmt.Fprintf(&b, "\t}()\n")
+	}
+	fmt.Fprintf(&b, "}\n")
+	return b.String()
+}
+
+// runTest executes the generated test through an overlay (nothing is written into the repository).
+func (rp *replayPlan) runTest(src string, scratch string) (map[int]string, string) {
+	ctx := rp.ctx
+	rel := strings.TrimPrefix(ctx.Pkg.Pkg.Path(), "github.com/consensys/gnark-crypto/")
+	dir := filepath.Join(ctx.Repo, rel)
+	os.MkdirAll(scratch, 0o755)
+	tf := filepath.Join(scratch, "zz_gcv_replay_test.go")
+	os.WriteFile(tf, []byte(src), 0o644)
+	ov := map[string]interface{}{"Replace": map[string]string{filepath.Join(dir, "zz_gcv_replay_test.go"): tf}}
+	ob, _ := json.Marshal(ov)
+	of := filepath.Join(scratch, "overlay.json")
+	os.WriteFile(of, ob, 0o644)
+	args := []string{"test", "-v", "-overlay", of, "-vet=off", "-count=1", "-timeout", "60s", "-run", "^TestGcvReplay$"}
+	if ctx.Tags != "" {
+		args = append(args, "-tags", ctx.Tags)
+	}
+	args = append(args, ".")
+	cctx, cancel := context.WithTimeout(context.Background(), 180*time.Second)
+	defer cancel()
+	cmd := exec.CommandContext(cctx, "go", args...)
+	cmd.Dir = dir
+	cmd.Env = append(os.Environ(), "GOFLAGS=-mod=mod", "GOPROXY=off", "GOSUMDB=off", "GOTOOLCHAIN=local")
+	var out bytes.Buffer
+	cmd.Stdout = &out
+	cmd.Stderr = &out
+	cmd.Run()
+	res := map[int]string{}
+	for _, line := range strings.Split(out.String(), "\n") {
+		if strings.HasPrefix(line, "GCVOUT ") {
+			f := strings.SplitN(line, " ", 3)
+			var k int
+			fmt.Sscan(f[1], &k)
+			if len(f) == 3 {
+				res[k] = f[2]
+			}
+		}
+	}
+	log := out.String()
+	if len(log) > 3000 {
+		log = log[len(log)-3000:]
+	}
+	return res, log
+}
+
+// evaluate checks requires (on inputs) and every ensures clause on (inputs, outputs). Returns the violated
+// clause names; ok=false if the input does not satisfy the precondition or cannot be evaluated.
+func (rp *replayPlan) evaluate(in *concreteInput, outJSON string) (violated []string, ok bool, note string) {
+	ctx := rp.ctx
+	v := ctx.V
+	fn := ctx.Fn
+	c := ctx.C
+	defer func() {
+		if r := recover(); r != nil {
+			ok = false
+			note = fmt.Sprint(r)
+		}
+	}()
+	var parsed struct {
+		Objs    []interface{} `json:"objs"`
+		Results []interface{} `json:"results"`
+	}
+	if strings.HasPrefix(outJSON, "PANIC") {
+		// a panic on an input satisfying the precondition violates every postcondition
+		outJSON = ""
+	}
+	v.resetRun()
+	v.setupLayer(ctx.Pkg, c)
+	F := v.F
+	fr := v.newFrame(fn, nil)
+	fr.top = true
+	fr.c = c
+	mk := func(objs []cval) (*State, map[string]Value, []*Object) {
+		st := &State{mem: map[*Object]Value{}, pc: F.True(), ghosts: map[string]*Term{}, srcVar: map[string]Value{}, srcAdr: map[string]bool{}}
+		st.envs = []map[ssa.Value]Value{{}}
+		vars := map[string]Value{}
+		var os []*Object
+		for oi, t := range rp.objTypes {
+			o := v.newObject(rp.objNames[oi], t, true)
+			st.mem[o] = v.toValue(t, objs[oi])
+			os = append(os, o)
+		}
+		for i, p := range fn.Params {
+			if oi, isPtr := rp.objOf[i]; isPtr {
+				vars[p.Name()] = &PtrV{Obj: os[oi]}
+			} else {
+				val := v.toValue(p.Type(), in.scalars[i])
+				vars[p.Name()] = wrapTyped(val, p.Type())
+			}
+		}
+		return st, vars, os
+	}
+	entry, vars, objs := mk(in.objs)
+	fr.params = vars
+	fr.entry = entry
+	se := &SpecEnv{fr: fr, st: entry, old: entry, vars: vars, pkg: ctx.Pkg, fn: fn}
+	for _, r := range c.Requires {
+		t := se.evalBool(r)
+		if !t.IsTrue() {
+			return nil, false, "input does not satisfy requires: " + r.Src
+		}
+	}
+	if outJSON == "" {
+		return []string{"panic"}, true, "the call panicked"
+	}
+	dec := json.NewDecoder(strings.NewReader(outJSON))
+	dec.UseNumber()
+	if err := dec.Decode(&parsed); err != nil {
+		return nil, false, "cannot parse output: " + err.Error()
+	}
+	// final state: same objects with output contents
+	fin := entry.clone()
+	for oi, t := range rp.objTypes {
+		cv, okc := decodeJSON(t, parsed.Objs[oi])
+		if !okc {
+			return nil, false, "cannot decode object output"
+		}
+		fin.mem[objs[oi]] = v.toValue(t, cv)
+	}
+	pv := map[string]Value{}
+	for k, x := range vars {
+		pv[k] = x
+	}
+	rs := fn.Signature.Results()
+	ghostVars := false
+	for i := 0; i < rs.Len(); i++ {
+		t := rs.At(i).Type()
+		var val Value
+		switch {
+		case types.Identical(t, types.Universe.Lookup("error").Type()):
+			if parsed.Results[i].(bool) {
+				e := F.Var("replay!err", mkSort("Iface"))
+				val = &IfaceV{T: types.Typ[types.Int], V: e} // non-nil: concrete dynamic type marker
+			} else {
+				val = &IfaceV{V: v.nilIface()}
+			}
+		default:
+			if _, isPtr := t.Underlying().(*types.Pointer); isPtr {
+				n, _ := parsed.Results[i].(json.Number)
+				k, _ := n.Int64()
+				if k >= 0 && int(k) < len(objs) {
+					val = &PtrV{Obj: objs[k]}
+				} else {
+					val = &PtrV{}
+				}
+			} else {
+				cv, okc := decodeJSON(t, parsed.Results[i])
+				if !okc {
+					return nil, false, "cannot decode result"
+				}
+				val = wrapTyped(v.toValue(t, cv), t)
+			}
+		}
+		if rs.Len() == 1 {
+			pv["result"] = val
+		} else {
+			pv[fmt.Sprintf("result%d", i)] = val
+		}
+		if n := rs.At(i).Name(); n != "" && n != "_" {
+			if _, clash := pv[n]; !clash {
+				pv[n] = val
+			}
+		}
+	}
+	// ghosts become free variables (existential witnesses)
+	gl := map[string]*Term{}
+	for _, g := range c.Ghosts {
+		gl[g.Name] = F.Var("ghost!"+g.Name, SInt)
+		ghostVars = true
+	}
+	for _, g := range c.GhostFinal {
+		gl[g.Name] = F.Var("ghost!"+g.Name, SInt)
+		ghostVars = true
+	}
+	pe := &SpecEnv{fr: fr, st: fin, old: entry, vars: pv, pkg: ctx.Pkg, fn: fn, ghostLocal: gl}
+	for _, e := range c.Ensures {
+		t := pe.evalBool(e.E)
+		if t.IsTrue() {
+			continue
+		}
+		if t.IsFalse() {
+			violated = append(violated, e.Name)
+			continue
+		}
+		// residual formula over ghost witnesses / uninterpreted spec functions: is it satisfiable at all?
+		script := F.Script(&Query{Name: "replay-eval", Hyps: nil, Goal: F.Not(t)}, false)
+		r := solve0(script, os.TempDir(), "replay-eval", 20, "")
+		if r.Status == "unsat" {
+			violated = append(violated, e.Name)
+		} else if r.Status != "sat" {
+			note += "clause " + e.Name + " undecided on concrete values; "
+		}
+		_ = ghostVars
+	}
+	// frame: non-destination operands unchanged
+	if c.HasMod {
+		allowed := map[int]bool{}
+		for _, lv := range c.Modifies {
+			base := lv
+			if i := strings.IndexAny(lv, ".["); i >= 0 {
+				base = lv[:i]
+			}
+			for i, p := range fn.Params {
+				if p.Name() == base {
+					if oi, ok := rp.objOf[i]; ok {
+						allowed[oi] = true
+					}
+				}
+			}
+		}
+		for oi := range rp.objTypes {
+			if allowed[oi] {
+				continue
+			}
+			a, _ := json.Marshal(parsed.Objs[oi])
+			want, _ := json.Marshal(cvalJSON(in.objs[oi]))
+			if string(a) != string(want) {
+				violated = append(violated, "frame:"+rp.objNames[oi])
+			}
+		}
+	}
+	return violated, true, note
+}
+
+func cvalJSON(c cval) interface{} {
+	switch x := c.(type) {
+	case *big.Int:
+		return json.Number(x.String())
+	case bool:
+		return x
+	case []interface{}:
+		out := make([]interface{}, len(x))
+		for i, e := range x {
+			out[i] = cvalJSON(e)
+		}
+		return out
+	}
+	return nil
+}
+
+func replayModel(repo string, o *Obligation, dir, id string) *replayResult {
+	ctx := o.Ctx
+	if ctx == nil {
+		return nil
+	}
+	rp := newReplayPlan(ctx)
+	if rp == nil {
+		return &replayResult{Log: "replay not supported for this function's parameter/result types"}
+	}
+	scratch, _ := os.MkdirTemp("", "gcv-replay-")
+	defer os.RemoveAll(scratch)
+	var inputs []*concreteInput
+	var sources []string
+	// 1. the solver model
+	if o.Result != nil && o.Result.Model != nil {
+		m := o.Result.Model
+		inputs = append(inputs, rp.inputFrom(func(name string, ii intInfo, isB bool) cval {
+			if isB {
+				return false
+			}
+			if k, ok := m[name]; ok {
+				return clamp(k, ii)
+			}
+			return big.NewInt(0)
+		}))
+		sources = append(sources, "solver-model")
+	}
+	// 2. boundary lattice and seeded random inputs
+	seed := int64(1)
+	if s := os.Getenv("VERIF_SEED"); s != "" {
+		fmt.Sscan(s, &seed)
+	}
+	rng := rand.New(rand.NewSource(seed))
+	fp := ctx.V.fieldParams(ctx.Pkg)
+	for k := 0; k < 160; k++ {
+		kind := k
+		inputs = append(inputs, rp.inputFrom(func(name string, ii intInfo, isB bool) cval {
+			if isB {
+				return rng.Intn(2) == 1
+			}
+			return boundaryWord(rng, ii, fp, name, kind)
+		}))
+		if k < 60 {
+			sources = append(sources, "boundary-search")
+		} else {
+			sources = append(sources, "random-search")
+		}
+	}
+	src := rp.testSource(inputs)
+	outs, log := rp.runTest(src, scratch)
+	res := &replayResult{Tried: len(inputs)}
+	if len(outs) == 0 {
+		res.Log = "replay test produced no output:\n" + log
+		return res
+	}
+	var keys []int
+	for k := range outs {
+		keys = append(keys, k)
+	}
+	sort.Ints(keys)
+	for _, k := range keys {
+		viol, ok, note := rp.evaluate(inputs[k], outs[k])
+		if !ok {
+			if k == 0 && sources[0] == "solver-model" {
+				res.Log += "model input not usable: " + note + "\n"
+			}
+			continue
+		}
+		if len(viol) > 0 {
+			res.Confirmed = true
+			res.Source = sources[k]
+			res.Violated = viol
+			var ov []interface{}
+			for _, o := range inputs[k].objs {
+				ov = append(ov, cvalJSON(o))
+			}
+			res.Inputs = map[string]interface{}{"objects": rp.objNames, "values": ov, "scalars": scalarsJSON(rp, inputs[k])}
+			res.Outputs = outs[k]
+			res.Test = rp.testSource([]*concreteInput{inputs[k]})
+			res.Log += note
+			return res
+		}
+	}
+	res.Log += "no tried input violates a postcondition on the real code"
+	return res
+}
+
+func scalarsJSON(rp *replayPlan, in *concreteInput) map[string]interface{} {
+	out := map[string]interface{}{}
+	for i, c := range in.scalars {
+		out[rp.ctx.Fn.Params[i].Name()] = cvalJSON(c)
+	}
+	return out
+}
+
+func clamp(k *big.Int, ii intInfo) *big.Int {
+	if ii.w == 0 {
+		return k
+	}
+	if k.Cmp(ii.lo()) < 0 {
+		return ii.lo()
+	}
+	if k.Cmp(ii.hi()) > 0 {
+		return ii.hi()
+	}
+	return k
+}
+
+// boundaryWord: limb values from the boundary lattice {0, 1, 2^k-1, limbs of q, q_i +- 1, max} or random.
+func boundaryWord(rng *rand.Rand, ii intInfo, fp *FieldParams, name string, kind int) *big.Int {
+	max := ii.hi()
+	if ii.signed {
+		cands := []int64{0, 1, -1, 2, -2, 1 << 31, -(1 << 31), 1<<62 - 1}
+		if kind < 60 {
+			return clamp(big.NewInt(cands[rng.Intn(len(cands))]), ii)
+		}
+		return clamp(big.NewInt(rng.Int63()-rng.Int63()), ii)
+	}
+	limb := -1
+	if i := strings.LastIndex(name, "_"); i >= 0 {
+		fmt.Sscan(name[i+1:], &limb)
+	}
+	var qlimb *big.Int
+	if fp != nil && limb >= 0 && limb < fp.Limbs {
+		qlimb = new(big.Int).And(new(big.Int).Rsh(fp.Q, uint(limb*fp.WordBits)), new(big.Int).Sub(pow2(fp.WordBits), big.NewInt(1)))
+	}
+	if kind < 60 {
+		cands := []*big.Int{big.NewInt(0), big.NewInt(1), max, new(big.Int).Sub(max, big.NewInt(1)), pow2(ii.w - 1), new(big.Int).Sub(pow2(ii.w-1), big.NewInt(1))}
+		if qlimb != nil {
+			cands = append(cands, qlimb, qlimb, new(big.Int).Sub(qlimb, big.NewInt(1)), new(big.Int).Add(qlimb, big.NewInt(1)))
+		}
+		return clamp(cands[rng.Intn(len(cands))], ii)
+	}
+	r := new(big.Int).Rand(rng, new(big.Int).Add(max, big.NewInt(1)))
+	// bias the top limb below the modulus limb so that most random elements are reduced
+	if qlimb != nil && fp != nil && limb == fp.Limbs-1 && qlimb.Sign() > 0 {
+		r.Mod(r, qlimb)
+	}
+	return r
+}
